@@ -69,7 +69,7 @@ def job(name, family, cairo, init, post, nonlinear=False, quick=False):
             "nonlinear": nonlinear, "quick": quick}
 
 
-RCANY = "RCD >= 0 /\\ RCD <= 6"
+RCANY = "RCD >= 0 /\\ RCD <= 24"
 
 
 def unsigned_jobs():
@@ -142,7 +142,7 @@ def signed_jobs():
                            f"        integer::SignedIntegerResult::Underflow(x) => (1, x),\n"
                            f"        integer::SignedIntegerResult::Overflow(x) => (2, x),\n"
                            f"    }}\n}}\n",
-                           both, f"{Post}({t(lo)}, {hi}, {B}, A1, A2, R1, R2) /\\ RCD = 1",
+                           both, f"{Post}({t(lo)}, {hi}, {B}, A1, A2, R1, R2) /\\ RCD >= 1 /\\ RCD <= 2",
                            quick=(n == 64 and op == "add")))
         out.append(job(f"{T}_diff", "s_diff",
                        f"fn foo(a: {T}, b: {T}) -> Result<{U}, {U}> {{\n    integer::{T}_diff(a, b)\n}}\n",
@@ -155,11 +155,11 @@ def signed_jobs():
     return out
 
 
-def cast_jobs(rng, n_down):
+def cast_jobs(rng, n_down, all_pairs=False):
     out = []
     named = [urange(n) for n in UW] + [srange(n) for n in UW]
     ups = [(a, b) for a in named for b in named if b[0] <= a[0] and a[1] <= b[1]]
-    for a, b in rng.sample(ups, 4):
+    for a, b in (ups if all_pairs else rng.sample(ups, 4)):
         out.append(job(f"upcast_{rname(a)}_{rname(b)}", "upcast",
                        f"fn foo(a: {tyname(a)}) -> {tyname(b)} {{\n    integer::upcast(a)\n}}\n",
                        [inty("A1", a)], "Upcast(A1, R1)"))
@@ -172,7 +172,7 @@ def cast_jobs(rng, n_down):
     ]
     fixed = [(urange(64), urange(16)), (srange(64), urange(16)), (urange(64), srange(16)),
              (srange(16), urange(64)), (urange(16), srange(16))]
-    chosen = fixed + extra + rng.sample(downs, max(0, n_down - len(fixed) - len(extra)))
+    chosen = fixed + extra + (downs if all_pairs else rng.sample(downs, max(0, n_down - len(fixed) - len(extra))))
     seen = set()
     for a, b in chosen:
         if (a, b) in seen:
@@ -276,7 +276,7 @@ def misc_jobs():
                    [inty("A1", u), inty("A2", u)], "U256IsZero(A1, A2, R1, R2, R3)"))
     out.append(job("u256_sqrt", "sqrt",
                    '#[feature("corelib-internal-use")]\nfn foo(a: u256) -> u128 {\n    integer::u256_sqrt(a)\n}\n',
-                   [inty("A1", u), inty("A2", u)], f"U256Sqrt(A1, A2, R1) /\\ {RCANY} + 6", nonlinear=True))
+                   [inty("A1", u), inty("A2", u)], f"U256Sqrt(A1, A2, R1) /\\ {RCANY}", nonlinear=True))
     out.append(job("u256_safe_div_rem", "divmod",
                    "fn foo(a: u256, b: NonZero<u256>) -> (u256, u256) {\n    integer::u256_safe_div_rem(a, b)\n}\n",
                    [inty("A1", u), inty("A2", u), inty("A3", u), inty("A4", u), "~(A3 = 0 /\\ A4 = 0)"],
@@ -296,7 +296,7 @@ def misc_jobs():
 
 def all_jobs(tier, seed):
     rng = random.Random(seed)
-    jobs = unsigned_jobs() + signed_jobs() + cast_jobs(rng, 24 if tier == "thorough" else 16) + bounded_jobs(rng) + misc_jobs()
+    jobs = unsigned_jobs() + signed_jobs() + cast_jobs(rng, 16, all_pairs=(tier == "thorough")) + bounded_jobs(rng) + misc_jobs()
     names = set()
     for j in jobs:
         assert j["name"] not in names, j["name"]
